@@ -158,7 +158,7 @@ func extractArt(repo string, facts Facts) (string, string) {
 	// lpm: same discipline (lpm/trie.go)
 	fl := parse(filepath.Join(repo, "lpm", "trie.go"))
 	lpmBump := map[string]bool{}
-	for _, name := range []string{"All", "Prefix", "LowerBound"} {
+	for _, name := range []string{"All", "Prefix", "LowerBound", "Commit"} {
 		fd := findFunc(fl, name, "Txn")
 		if fd == nil {
 			fail("lpm/trie.go: Txn.%s not found", name)
@@ -220,7 +220,7 @@ func extractArt(repo string, facts Facts) (string, string) {
 		b2s(bumpers["All"]), b2s(bumpers["Clone"]), b2s(bumpers["Prefix"]), b2s(bumpers["LowerBound"]), b2s(bumpers["Iterator"]), b2s(bumpers["Commit"]),
 		b2s(cloneCond == "n.txnID()==txn.txnID"), b2s(idFromTree))
 	fmt.Fprintf(&b, "def lpmStamp : Cow.StampFacts := {\n  bumpAll := %s, bumpClone := true, bumpPrefix := %s, bumpLowerBound := %s, bumpIterator := true, bumpCommit := %s,\n  inPlaceOnlyIfOwned := %s, idFromPublished := %s }\n",
-		b2s(lpmBump["All"]), b2s(lpmBump["Prefix"]), b2s(lpmBump["LowerBound"]), b2s(lpmTxnNext && lpmReuseNext),
+		b2s(lpmBump["All"]), b2s(lpmBump["Prefix"]), b2s(lpmBump["LowerBound"]), b2s(lpmBump["Commit"]),
 		b2s(lpmCloneCond == "n.txnID==txn.txnID"), b2s(lpmTxnNext && lpmReuseNext))
 	b.WriteString("end Sdb.Gen\n")
 	return "ArtParams.lean", b.String()
